@@ -14,6 +14,8 @@ structure St where
   s : State := {}
   modes : List String := []
   kf : String := ""
+  /-- a `NeedsTable` call held between its two reads: instance and table -/
+  ask : Option (Nat × Path) := none
 
 def sortStr (xs : List String) : List String := (xs.toArray.qsort (· < ·)).toList
 
@@ -148,20 +150,41 @@ def step (st : St) (ws : List String) : St × String :=
     let act : Act :=
       if from_ == "none" || from_ == "" then .openFresh range gen nbrs
       else match from_.splitOn ":" with
-        | [w, id] => .openFrom range gen nbrs (natOr w) (natOr id)
+        | [w, id] => .openFrom range gen nbrs ((w.splitOn "+").map natOr) (natOr id)
         | _ => .openFresh range gen nbrs
     match Files.step st.s act with
     | none => (st, "no-such-checkpoint")
     | some s' =>
       let idx := st.s.insts.length
+      let lost := match s'.insts[idx]? with
+        | some x => (uris x.current).any (fun u => !st.s.files.contains (.sst u)) ||
+            (match x.ckpts with
+              | c :: _ => c.wals.any (fun w => !st.s.files.contains (.wal w))
+              | [] => false)
+        | none => false
+      if lost then (st, "files-missing") else
       match s'.insts[idx]? with
       | none => (st, "bad-state")
       | some x =>
         let wals := match x.ckpts with
           | c :: _ => c.wals
           | [] => []
-        ({ st with s := s', modes := st.modes ++ ["truthful"] },
-          "ok " ++ toString idx ++ " tables=" ++ joinC (sortStr (x.current.map showTbl)) ++ " wals=" ++ joinC (sortStr wals))
+        -- the WAL replay may flush and compact before the instance is handed over: those commits are read from the
+        -- implementation like the ones of a `write`
+        let evs := field hint "ev"
+        let events := if evs == "-" || evs == "" then [] else evs.splitOn ";"
+        let r := events.foldl (fun (acc : Option State × String) ev =>
+          match acc.1 with
+          | none => acc
+          | some s => match applyEvent s idx ev with
+            | some s2 => (some s2, acc.2)
+            | none => (none, ev)) (some s', "")
+        match r.1 with
+        | none => (st, "disabled " ++ r.2)
+        | some s2 =>
+          ({ st with s := s2, modes := st.modes ++ ["truthful"] },
+            "ok " ++ toString idx ++ " tables=" ++ joinC (sortStr (x.current.map showTbl)) ++ " wals=" ++ joinC (sortStr wals)
+              ++ " ev=" ++ (if evs == "" then "-" else evs))
   | ["write", i, _, _, _] =>
     let i := natOr i
     if !aliveAt st i then (st, "not-alive") else
@@ -247,6 +270,38 @@ def step (st : St) (ws : List String) : St × String :=
     let spec := "ok cleanups=" ++ joinC (sortStr specLines) ++ " deleted=" ++ joinC (sortStr (gone.filter (fun p => !badUris.contains p)))
     let kf := pickKf acc.bad
     ({ st with s := acc.s, kf := if acc.bad.isEmpty then st.kf else kf }, withSpec model spec kf)
+  | ["asksplit", i, sel] =>
+    let i := natOr i
+    if !aliveAt st i then (st, "not-alive") else
+    if st.ask.isSome then (st, "ask-pending") else
+    match st.s.insts[i]? with
+    | none => (st, "not-alive")
+    | some x =>
+      let liveL := sortStr (uris x.current)
+      -- which table is asked about is read from the implementation and checked against the selector
+      let u := match hint with
+        | [_, u] => u
+        | [_, u, _] => u
+        | _ => ""
+      let okSel := match sel with
+        | "new" => liveL.getLast? == some u
+        | "old" => liveL.head? == some u
+        | _ => st.s.used.contains u && !liveL.contains u
+      if hint == ["none"] then
+        (st, if (sel == "new" || sel == "old") && !liveL.isEmpty then "some" else "none")
+      else if !okSel then (st, "bad-selection " ++ u)
+      else if needsFirst x u then (st, "done " ++ u ++ " yes")
+      else ({ st with ask := some (i, u) }, "parked " ++ u)
+  | ["askresume"] =>
+    match st.ask with
+    | none => (st, "no-ask")
+    | some (i, u) =>
+      match st.s.insts[i]? with
+      | none => ({ st with ask := none }, "no")
+      | some x =>
+        let yn := fun (b : Bool) => if b then "yes" else "no"
+        -- the first read said no; the answer is the second read, and it must be true of the instance now
+        ({ st with ask := none }, withSpec (yn (needsSecond x u)) (yn (needsTable x u)) "")
   | ["files"] => (st, "ok " ++ joinC (sortStr (st.s.files.map filePath)))
   | ["missing"] =>
     let m := (missing st.s).map filePath
